@@ -4,8 +4,10 @@
 that differ in heap contents (MALLOC_PERTURB_, LD_PRELOAD dirtyheap shim with
 several seeds), environment size and ASLR; the binary and every listing
 (-S, --tree, --insts*, --instrs) must be byte-identical.
-(b) In-process, the same source is compiled first, and after unrelated
-compilations in the same process; images must be identical.
+(b) In-process, the same source is compiled first, after unrelated
+compilations in the same process, and through a Driver (lexer and parser for
+hexasm) object that has already processed other sources; images and listings
+must be identical.
 (c) valgrind memcheck on accepted compilations: no conditional jump, address or
 write() buffer depending on uninitialised memory (the mechanism by which host
 state reaches the output, observed directly)."""
@@ -29,6 +31,10 @@ UNUSUAL_X = [
     "var a; var b; var c; var d; proc main() is { a := 1; b := a; c := b; d := c; 0(d) }",
     "func lab1(val x) is return x func lab0(val x) is return lab1(x) proc main() is 0(lab0(3))",
     "val t = true; val f = false; proc main() is if t and (~f) then 0(1) else 0(2)",
+    "proc show(array s) is 1(s[0] + 48, 0) proc main() is { show(\"hello, world\\n\"); show(\"\") }",
+    "proc show(array s) is 1(s[0] + 48, 0) proc main() is show(\"\")",
+    "proc show(array s, val c) is 1(c, 0) proc main() is { show(\"\", 'a'); show(\"b\", #7F) }",
+    "proc main() is 0('x' - #78)",
 ]
 UNUSUAL_ASM = [
     "unused\nLDAC 1\nalso_unused\nOPR ADD\n",
@@ -159,6 +165,22 @@ def inproc(v, srcs, rnd):
             for k in range(2):
                 f2["pre%d" % k] = rnd.choice(mine)[2]
             cases.append(("%d_2" % i, f2))
+            # the same, through one Driver (xcmp) or one lexer and parser (hexasm) that has already processed other sources
+            r2 = dict(f2)
+            r2["reuse"] = b"1"
+            r2["pre0"] = rnd.choice(mine)[2]
+            cases.append(("%d_r2" % i, r2))
+            r6 = dict(base)
+            r6["reuse"] = b"1"
+            for k in range(6):
+                r6["pre%d" % k] = rnd.choice(mine)[2]
+            cases.append(("%d_r6" % i, r6))
+            if i % 8 == 0:
+                r9 = dict(base)
+                r9["reuse"] = b"1"
+                for k in range(9):
+                    r9["pre%d" % k] = rnd.choice(mine)[2]
+                cases.append(("%d_r9" % i, r9))
             if i % 8 == 0:
                 f50 = dict(base)
                 for k in range(49):
@@ -167,7 +189,7 @@ def inproc(v, srcs, rnd):
         res = common.run_harness(exe, cases, args=["cases"], tag="c11in", timeout=4 * 3600)
         for i, (_, tag, text) in enumerate(mine):
             outs = []
-            for suffix in ("0", "2", "49"):
+            for suffix in ("0", "2", "49", "r2", "r6", "r9"):
                 r = res.get("%d_%s" % (i, suffix))
                 if r is None:
                     continue
